@@ -122,7 +122,7 @@ def check(ctx):
     ok = len(ps) == 1
     if ok:
         recs = [c for c in ps[0].calls() if callee_is(c, "PushProgram::parse_from_plushy")]
-        ok = len(recs) == 1 and match(recs[0][3][0], Const(1)) and match(recs[0][3][1], Through(Call("IntoIterator::into_iter", Param(1), nargs=1))) and \
+        ok = len(recs) == 1 and len(recs[0][3]) == 3 and match(recs[0][3][0], Const(1)) and match(recs[0][3][1], Through(Call("IntoIterator::into_iter", Param(1), nargs=1))) and \
             callee_is(peel(recs[0][3][2], ()), "Vec::new") and ps[0].ret == peel(recs[0][3][2], ())
     ctx.check(ok, "R05.3", "From<Plushy>/parse(true,genome.into_iter(),fresh)-returns-that-vec", short(ps[0].ret) if ps else "-", f.at())
     f = ctx.fn("<push::genome::plushy::Plushy as std::iter::IntoIterator>::into_iter")
